@@ -62,8 +62,9 @@ type vkNode struct {
 var vkFieldNames = []string{"Key", "Keys", "Nested", "Items", "Name", "Val", "Num", "Ptr", "Any", "Tags", "Arr", "Deep", "Id", "Flag"}
 
 type vkGen struct {
-	rng    *vRand
-	ifaceT []*vkType // candidate dynamic types for interface values
+	embedding bool // generating the type of an embedded field: embed again more often
+	rng       *vRand
+	ifaceT    []*vkType // candidate dynamic types for interface values
 }
 
 func (g *vkGen) genType(depth int) *vkType {
@@ -110,8 +111,11 @@ func (g *vkGen) genStruct(depth int) *vkType {
 	}
 	// sometimes an embedded struct / embedded *struct (always the first field:
 	// reflect.StructOf restriction-free position)
-	if depth > 0 && r.Intn(6) == 0 {
+	if depth > 0 && (r.Intn(6) == 0 || g.embedding && r.Intn(2) == 0) {
+		was := g.embedding
+		g.embedding = true
 		et := g.genStruct(depth - 1)
+		g.embedding = was
 		ft := et
 		if r.Bool() {
 			ft = &vkType{kind: vkPtr, elem: et}
@@ -472,15 +476,16 @@ func (g *vkGen) validPath(n *vkNode, maxLen int) []string {
 			break
 		}
 		fs := cur.fields
-		if fs[0].embedded && g.rng.Intn(2) == 0 {
-			// name a promoted field
+		for lvl := 0; lvl < 3 && fs[0].embedded && g.rng.Intn(2) == 0; lvl++ {
+			// name a field promoted through one or more levels of embedding
 			et := fs[0].t
 			if et.kind == vkPtr {
 				et = et.elem
 			}
-			if len(et.fields) > 0 {
-				fs = et.fields
+			if len(et.fields) == 0 {
+				break
 			}
+			fs = et.fields
 		}
 		f := fs[g.rng.Intn(len(fs))]
 		for try := 0; try < 3 && !vkLeadsToString(f.t, 3); try++ {
